@@ -330,15 +330,23 @@ def _match_known(known, pid, v):
     return None
 
 
-def update_ledger():
+def update_ledger(only=None):
     ld = core.Loaded()
     targets = [c.target or c.name for c in ld.contracts]
+    old = core.load_ledger() if only else {}
+    if only:
+        targets = [t for t in targets if any(o in t for o in only)]
     obs, und, gs, ss = core.verify_targets(ld, targets)
     summ = core.summarize(obs)
     # exception freedom is a clause of every verified function even when no exceptional path is feasible at all
     for o in obs:
         key = o.oid.split(':')[0] + ':raises-only-declared'
         summ.setdefault(key, 'proved')
+    if only:
+        prefixes = {o.oid.split(':')[0] for o in obs}
+        old = {k: v for k, v in old.items() if k.split(':')[0] not in prefixes}
+        old.update(summ)
+        summ = old
     json.dump(summ, open(core.LEDGER_PATH, 'w'), indent=1, sort_keys=True)
     bad = {k: v for k, v in summ.items() if v != 'proved'}
     print('ledger: %d clauses, %d not proved' % (len(summ), len(bad)))
@@ -354,11 +362,12 @@ def main(argv=None):
     ap.add_argument('--tier', default=os.environ.get('VERIF_TIER', 'quick'))
     ap.add_argument('--replay')
     ap.add_argument('--ledger', action='store_true')
+    ap.add_argument('--only', nargs='*')
     a = ap.parse_args(argv)
     seed = int(os.environ.get('VERIF_SEED', '0') or 0)
     try:
         if a.ledger:
-            update_ledger()
+            update_ledger(a.only)
             return 0
         if a.replay:
             from . import replay
